@@ -219,6 +219,10 @@ func c04(tier string) []*explore.Scenario {
 	for _, way := range []string{"first-message", "sendheader", "with-trailer", "concurrent-sendheader"} {
 		out = append(out, c04HeaderRace(way, 2))
 	}
+	// finer granularity (a scheduling point after every Unlock as well): SendHeader racing the first message, with and
+	// without stats handlers in the path of the header
+	out = append(out, fineGrained(c04HeaderRace("concurrent-sendheader", 2), c04HeaderRace("sendheader", 1))...)
+	out = append(out, withConfig([]string{"stats2", "stats+interceptors"}, fineGrained(c04HeaderRace("concurrent-sendheader", 2))...)...)
 	out = append(out, handlerSeqs("C04", tier)...)
 	return out
 }
@@ -519,6 +523,7 @@ func c04HeaderRace(way string, bound int) *explore.Scenario {
 			if msg := wantOf(trl).check(r.CTrailer, nil); msg != "" {
 				vsched.Fail(fam+"|response-trailer", "Trailer(): %s", msg)
 			}
+			finishDirect(d, w, true) // (the wire: metadata only on the call's first response envelope)
 		},
 	}
 }
@@ -563,6 +568,7 @@ func c04ResetAfterReturn(kind string, herr bool, bound int) *explore.Scenario {
 					}
 				}
 			}
+			finishDirect(d, w, false) // (wire protocol)
 		},
 	}
 }
